@@ -2,6 +2,7 @@ import Utv.GenEq.Support
 import Utv.Gen.Field
 import Utv.Gen.JsonTables
 import Utv.Gen.CodecTables
+import Utv.Gen.Encode
 import Utv.Model.C13
 /-!
 C13 — T1 obligations: the field predicates the JSON-schema generator's model relies on (`Model/C13.lean`:
@@ -139,5 +140,12 @@ theorem C13_gen_tables :
     MAX_SAFE = CodecTables.MAX_SAFE_NUMBER ∧ -MAX_SAFE = CodecTables.MIN_SAFE_NUMBER := by
   gen_obligation "C13_gen_tables: the regenerated code (Utv.Gen) is no longer equal to the hand model here" by
     refine ⟨?_, ?_, ?_, ?_, ?_, ?_, ?_, ?_, ?_, ?_⟩ <;> decide
+
+/-- `js_unsafe` on integers (the bounds are inlined from encode.py as they are now) is the model's `jsUnsafe` -/
+theorem C13_gen_js_unsafe (W : World Unit) (i : Int) :
+    Encode.js_unsafe W (.int i) = .ok (.bool (jsUnsafe (Utv.JsonSchema.Num.ofInt i))) := by
+  gen_obligation "C13_gen_js_unsafe: the regenerated code (Utv.Gen) is no longer equal to the hand model here" by
+    obj_simp [Encode.js_unsafe, gt, lt, intOf?, jsUnsafe, Utv.JsonSchema.Num.lt, Utv.JsonSchema.Num.ofInt, MAX_SAFE]
+    by_cases h1 : 9007199254740991 < i <;> by_cases h2 : i < -9007199254740991 <;> simp [h1, h2] <;> omega
 
 end Utv.GenEq.C13
